@@ -288,6 +288,18 @@ Theorem acr_block_roundtrip : forall r v pv,
 Proof. exact M.acr_block_roundtrip. Qed.
 Print Assumptions acr_block_roundtrip.
 
+(* the two-hop conversions ENU <-> ACR of position/velocity differences (PosBase.to_system goes over TRS): the composed matrices are
+   proper rotations, the result is the product applied once, ENU -> ACR -> ENU is the identity, and the TRS value reached through
+   the other local frame is the TRS value of the direct conversion *)
+Theorem enu_acr_composition : forall lat lon r v d,
+  cross r v <> vzero ->
+  rotation (mmul (trs2acr r v) (enu2trs lat lon)) /\ rotation (mmul (trs2enu lat lon) (acr2trs r v)) /\
+  mvec (trs2acr r v) (mvec (enu2trs lat lon) d) = mvec (mmul (trs2acr r v) (enu2trs lat lon)) d /\
+  mvec (trs2enu lat lon) (mvec (acr2trs r v) (mvec (trs2acr r v) (mvec (enu2trs lat lon) d))) = d /\
+  mvec (enu2trs lat lon) (mvec (trs2enu lat lon) (mvec (acr2trs r v) d)) = mvec (acr2trs r v) d.
+Proof. exact M.enu_acr_composition. Qed.
+Print Assumptions enu_acr_composition.
+
 (* quirk c06_acr_1d_transposed (triad stacked as columns) is not the specification *)
 Theorem acr_1d_transposed_refuted :
   exists r v d, cross r v <> vzero /\ mvec (trs2acr_q true r v) d <> mvec (trs2acr_q false r v) d.
